@@ -5,12 +5,14 @@ package blob
 
 import (
 	"encoding/hex"
+	"errors"
 	"fmt"
 	"os"
 	"path/filepath"
 	"strings"
 	"testing"
 
+	"github.com/ollama/ollama/server/internal/internal/names"
 	"github.com/ollama/ollama/zzverif"
 )
 
@@ -86,6 +88,109 @@ func c13ManifestCase(out *zzverif.Out, cc *c13Cache, s string) (string, bool) {
 	return p, true
 }
 
+// c13LinksArg renders the on-disk listing for the oracle.
+func c13LinksArg(cc *c13Cache) string {
+	var sb strings.Builder
+	fmt.Fprintf(&sb, "%s %d", zzverif.Hex([]byte(cc.c.dir)), len(cc.links))
+	for _, l := range cc.links {
+		sb.WriteString(" " + zzverif.Hex([]byte(l)))
+	}
+	return sb.String()
+}
+
+// c13ResolveCase ties the addressing part of DiskCache.Resolve (splitNameDigest, then a digest or a manifest
+// file) to the model and checks that what Resolve reports is consistent with it.
+func c13ResolveCase(out *zzverif.Out, cc *c13Cache, s string) {
+	name, digest := splitNameDigest(s)
+	out.Case("snd "+zzverif.Hex([]byte(s)), zzverif.Hex([]byte(name))+" "+zzverif.Hex([]byte(digest)))
+	op := "resolve " + c13LinksArg(cc) + " " + zzverif.Hex([]byte(s))
+	out.Count("cases")
+	d, rerr := cc.c.Resolve(s)
+	if digest != "" {
+		pd, err := ParseDigest(digest)
+		if err != nil {
+			out.Case(op, "invalid")
+			if rerr == nil {
+				out.L2("resolve-accepts-bad-digest", op, "Resolve succeeded")
+			}
+			out.Count("resolve_invalid")
+			return
+		}
+		out.Case(op, "digest "+zzverif.Hex(pd.sum[:]))
+		out.Count("resolve_digest")
+		if rerr != nil || d != pd {
+			out.L2("resolve-digest-differs", op, fmt.Sprint(rerr))
+		}
+		return
+	}
+	p, err := cc.c.manifestPath(name)
+	if err != nil {
+		out.Case(op, "invalid")
+		out.Count("resolve_invalid")
+		if !errors.Is(rerr, errInvalidName) {
+			out.L2("resolve-accepts-invalid-name", op, fmt.Sprint(rerr))
+		}
+		return
+	}
+	out.Case(op, "manifest "+zzverif.Hex([]byte(p)))
+	out.Count("resolve_manifest")
+	if errors.Is(rerr, errInvalidName) {
+		out.L2("resolve-rejects-valid-name", op, "manifestPath accepted it")
+	}
+	if why := zzverif.C13Confined(cc.c.dir, "manifests", p, 4); why != "" {
+		out.L2("manifest-path-escapes", op, why+" path="+zzverif.Hex([]byte(p)))
+	}
+	// Resolve succeeds exactly when the addressed file exists (and then it is a file under manifests/)
+	if _, serr := os.Stat(p); (serr == nil) != (rerr == nil) {
+		if !(serr == nil && rerr != nil && strings.Contains(rerr.Error(), "name too long")) {
+			out.L2("resolve-vs-file", op, fmt.Sprintf("stat: %v resolve: %v", serr, rerr))
+		}
+	}
+}
+
+var c13Mask = names.Parse("registry.ollama.ai/library/_:latest")
+
+// c13ExtCase: an extended name the way the registry client treats it (names.Split, Merge with the mask,
+// IsFullyQualified, then String() handed to the cache) must resolve inside <dir>/manifests at depth 4.
+func c13ExtCase(out *zzverif.Out, cc *c13Cache, s string) {
+	_, name, _ := names.Split(s)
+	n := names.Merge(names.Parse(name), c13Mask)
+	if !n.IsFullyQualified() {
+		out.Count("ext_rejected")
+		return
+	}
+	out.Count("ext_to_cache")
+	if _, ok := c13ManifestCase(out, cc, n.String()); !ok {
+		out.L2("cache-rejects-printed-name", "n2p "+zzverif.Hex([]byte(n.String())), "from extended name "+zzverif.Hex([]byte(s)))
+	}
+}
+
+func c13FoldCase(out *zzverif.Out, a, l string) {
+	out.Case("fold "+zzverif.Hex([]byte(a))+" "+zzverif.Hex([]byte(l)), zzverif.C13Bool(strings.EqualFold(a, l)))
+	out.Count("cases")
+	out.Count("fold_direct")
+}
+
+// c13Foreign returns a spelling of the relative link path l that is NOT ASCII but may still be EqualFold to it:
+// k/K -> KELVIN SIGN, s/S -> LONG S, or (never fold-equal) a letter replaced by e-acute / an invalid byte.
+func c13Foreign(r *zzverif.Rng, l string) string {
+	var sb strings.Builder
+	for i := 0; i < len(l); i++ {
+		c := l[i]
+		switch {
+		case (c == 'k' || c == 'K') && r.Chance(2, 3):
+			sb.WriteString("\u212a")
+		case (c == 's' || c == 'S') && r.Chance(2, 3):
+			sb.WriteString("\u017f")
+		case c != '/' && r.Chance(1, 40):
+			sb.WriteString(zzverif.Pick(r, []string{"\u00e9", "\xff", "\xe2\x84", "\u212b"}))
+		default:
+			sb.WriteByte(c)
+		}
+	}
+	return sb.String()
+}
+
 // c13Variant returns s with the case of every letter chosen at random.
 func c13Variant(r *zzverif.Rng, s string) string {
 	b := []byte(s)
@@ -107,6 +212,9 @@ func c13FQName(r *zzverif.Rng) string {
 	return zzverif.C13Part(r, 0, ln(0)) + "/" + zzverif.C13Part(r, 1, ln(1)) + "/" + zzverif.C13Part(r, 2, ln(2)) + ":" + zzverif.C13Part(r, 3, ln(3))
 }
 
+// c13RawLinks: relative link paths (h/n/m/t, any bytes) to create in the next c13NewCache besides the names.
+var c13RawLinks []string
+
 func c13NewCache(t *testing.T, r *zzverif.Rng, names []string) *c13Cache {
 	dir := t.TempDir()
 	c, err := Open(dir)
@@ -124,6 +232,13 @@ func c13NewCache(t *testing.T, r *zzverif.Rng, names []string) *c13Cache {
 		}
 		os.WriteFile(p, []byte("{}"), 0o644)
 	}
+	for _, raw := range c13RawLinks {
+		p := filepath.Join(dir, "manifests", raw)
+		if err := os.MkdirAll(filepath.Dir(p), 0o755); err == nil {
+			os.WriteFile(p, []byte("{}"), 0o644)
+		}
+	}
+	c13RawLinks = nil
 	cc := &c13Cache{c: c}
 	for l, err := range c.links() {
 		if err != nil {
@@ -147,16 +262,21 @@ func TestVerifC13(t *testing.T) {
 			c13DigestCase(out, empty.c, string(zzverif.Unhex(f[1])))
 		case len(f) == 2 && f[0] == "n2p":
 			c13ManifestCase(out, empty, string(zzverif.Unhex(f[1])))
+		case len(f) == 2 && f[0] == "snd":
+			c13ResolveCase(out, empty, string(zzverif.Unhex(f[1])))
+		case len(f) == 3 && f[0] == "fold":
+			c13FoldCase(out, string(zzverif.Unhex(f[1])), string(zzverif.Unhex(f[2])))
+		case len(f) >= 4 && f[0] == "resolve":
+			for _, l := range f[3 : len(f)-1] {
+				c13RawLinks = append(c13RawLinks, strings.TrimPrefix(string(zzverif.Unhex(l)), "manifests/"))
+			}
+			c13ResolveCase(out, c13NewCache(t, root.Fork(), nil), string(zzverif.Unhex(f[len(f)-1])))
 		case len(f) >= 4 && f[0] == "mfpath":
 			// rebuild the links of the recorded case in a fresh cache directory
-			var names []string
 			for _, l := range f[3 : len(f)-1] {
-				p := strings.Split(strings.TrimPrefix(string(zzverif.Unhex(l)), "manifests/"), "/")
-				if len(p) == 4 {
-					names = append(names, p[0]+"/"+p[1]+"/"+p[2]+":"+p[3])
-				}
+				c13RawLinks = append(c13RawLinks, strings.TrimPrefix(string(zzverif.Unhex(l)), "manifests/"))
 			}
-			c13ManifestCase(out, c13NewCache(t, root.Fork(), names), string(zzverif.Unhex(f[len(f)-1])))
+			c13ManifestCase(out, c13NewCache(t, root.Fork(), nil), string(zzverif.Unhex(f[len(f)-1])))
 		}
 		return
 	}
@@ -203,8 +323,22 @@ func TestVerifC13(t *testing.T) {
 				names = append(names, nm+"x", "x"+nm)
 			}
 		}
+		// foreign spellings of some of the links (KELVIN SIGN, LONG S, other non-ASCII, invalid UTF-8)
+		for _, nm := range names {
+			if r.Chance(1, 2) {
+				if np, err := nameToPath(nm); err == nil {
+					c13RawLinks = append(c13RawLinks, c13Foreign(r, c13Variant(r, np)))
+					out.Count("foreign_links_requested")
+				}
+			}
+		}
 		cc := c13NewCache(t, r, names)
 		out.Add("links_on_disk", len(cc.links))
+		for _, l := range cc.links {
+			if strings.IndexFunc(l, func(c rune) bool { return c >= 0x80 }) >= 0 {
+				out.Count("links_non_ascii")
+			}
+		}
 		for _, nm := range names {
 			p0, ok0 := c13ManifestCase(out, cc, nm)
 			for k := 0; k < 4; k++ {
@@ -229,6 +363,60 @@ func TestVerifC13(t *testing.T) {
 			}
 			// unrelated / mutated name
 			c13ManifestCase(out, cc, zzverif.C13Mutate(r, nm))
+			// Resolve: plain, with a digest, mutated
+			c13ResolveCase(out, cc, c13Variant(r, nm))
+			c13ResolveCase(out, cc, nm+"@"+zzverif.C13ValidDigest(r))
+			c13ResolveCase(out, cc, zzverif.C13Mutate(r, nm+"@"+zzverif.C13ValidDigest(r)))
+			// extended forms as the registry client accepts them
+			ext := zzverif.Pick(r, []string{"", "http://", "https://", "https+insecure://", "x://"}) + c13Variant(r, nm)
+			if r.Bool() {
+				ext += "@" + zzverif.C13ValidDigest(r)
+			}
+			c13ExtCase(out, cc, ext)
+			c13ExtCase(out, cc, zzverif.C13Mutate(r, ext))
+		}
+		for k := 0; k < 6; k++ {
+			_, s := zzverif.C13Name(r)
+			c13ResolveCase(out, cc, s)
+			c13ExtCase(out, cc, s)
 		}
 	}
+	// strings.EqualFold against the model, directly: ASCII left operand, arbitrary right operand
+	aTok := []string{"k", "K", "s", "S", "a", "/", "1"}
+	lTok := []string{"k", "K", "s", "S", "a", "A", "/", "1", "\u212a", "\u017f", "\xe2", "\x84", "\xaa", "\xc5", "\xbf", "\u00e9", "\xff"}
+	var seqs func(tok []string, n int, f func(string))
+	seqs = func(tok []string, n int, f func(string)) {
+		f("")
+		if n == 0 {
+			return
+		}
+		for _, t := range tok {
+			seqs(tok, n-1, func(rest string) { f(t + rest) })
+		}
+	}
+	lMax := 2
+	if os.Getenv("VERIF_TIER") == "thorough" {
+		lMax = 3
+	}
+	seen := map[string]bool{}
+	seqs(aTok, 2, func(a string) {
+		if seen[a] {
+			return
+		}
+		seen[a] = true
+		seenL := map[string]bool{}
+		seqs(lTok, lMax, func(l string) {
+			if !seenL[l] {
+				seenL[l] = true
+				c13FoldCase(out, a, l)
+			}
+		})
+	})
+	for _, s := range []string{"a@", "@", "a@b@c", "h/n/m:t@sha256:" + strings.Repeat("0", 64), "@sha256-" + strings.Repeat("A", 64)} {
+		c13ResolveCase(out, empty, s)
+	}
+	zzverif.C13Exhaustive(zzverif.C13Alphabet, 2, func(s string) {
+		c13ResolveCase(out, empty, s)
+		c13ResolveCase(out, empty, "h/n/m:t"+s)
+	})
 }
